@@ -311,6 +311,13 @@ func init() {
 		}
 		return TupleV{ByteSlice{T: s}, ByteSlice{Nil: true, T: StrC("")}, False}
 	})
+	add("html.EscapeString", func(m *Machine, _ *Thread, _ *Frame, a []Value, _ ssa.Value) Value {
+		s := str(a[0])
+		if c, ok := m.litValue(s); ok && !strings.ContainsAny(c, "<>&'\"") {
+			return s
+		}
+		return App("uf.htmlEscape", s.S, s) // may differ from s (it does iff s contains <, >, &, ' or ")
+	})
 	add("strings.TrimSpace", func(m *Machine, _ *Thread, _ *Frame, a []Value, _ ssa.Value) Value {
 		s := str(a[0])
 		if c, ok := m.litValue(s); ok {
